@@ -194,7 +194,7 @@ func newInter(kind, dir string) (oras.Target, func(), error) {
 }
 
 // pipeline adds path under name, packs, copies through the intermediate store and restores into dstDir.
-func pipeline(ctx context.Context, c Case, base, name, path string, tamper bool) (desc ocispec.Descriptor, descok bool, dstDir string, err error) {
+func pipeline(ctx context.Context, c Case, base, name, path string, tamper, used bool) (desc ocispec.Descriptor, descok bool, dstDir string, err error) {
 	srcStore, err := file.New(filepath.Join(base, "srcwd"))
 	if err != nil {
 		return
@@ -234,6 +234,23 @@ func pipeline(ctx context.Context, c Case, base, name, path string, tamper bool)
 		return
 	}
 	dstDir = filepath.Join(base, "dstwd")
+	if used {
+		// the working directory was used before: longer files under the names about to be restored
+		old := bytes.Repeat([]byte("previous content of a longer file\n"), 50)
+		if fi, serr := os.Stat(path); serr == nil && !fi.IsDir() {
+			os.MkdirAll(dstDir, 0o755)
+			os.WriteFile(filepath.Join(dstDir, name), old, 0o644)
+		} else {
+			filepath.WalkDir(path, func(p string, d fs.DirEntry, werr error) error {
+				if werr == nil && d.Type().IsRegular() {
+					rel, _ := filepath.Rel(path, p)
+					os.MkdirAll(filepath.Dir(filepath.Join(dstDir, name, rel)), 0o755)
+					os.WriteFile(filepath.Join(dstDir, name, rel), old, 0o644)
+				}
+				return nil
+			})
+		}
+	}
 	dst, err := file.New(dstDir)
 	if err != nil {
 		return
@@ -274,7 +291,7 @@ func TestDrive(t *testing.T) {
 		if !isDir {
 			name = "artifact.txt"
 		}
-		run := func(sub string, mtime time.Time, tamper bool) (ocispec.Descriptor, bool, string, error) {
+		run := func(sub string, mtime time.Time, tamper bool, used ...bool) (ocispec.Descriptor, bool, string, error) {
 			base := filepath.Join(root, fmt.Sprintf("c%d-%s", ci, sub))
 			os.MkdirAll(base, 0o755)
 			src := filepath.Join(base, "input", name)
@@ -282,7 +299,7 @@ func TestDrive(t *testing.T) {
 			if err := materialise(src, append([]Obj(nil), objs...), mtime); err != nil {
 				t.Fatal(err)
 			}
-			return pipeline(ctx, c, base, name, src, tamper)
+			return pipeline(ctx, c, base, name, src, tamper, len(used) > 0 && used[0])
 		}
 		desc1, descok, dstDir, err := run("a", time.Unix(1000000000, 0), false)
 		got := []Obj{}
@@ -317,6 +334,21 @@ func TestDrive(t *testing.T) {
 			"blobfile": blobfile, "blobdigestok": blobdigestok})
 		os.RemoveAll(filepath.Join(root, fmt.Sprintf("c%d-a", ci)))
 		os.RemoveAll(filepath.Join(root, fmt.Sprintf("c%d-b", ci)))
+		if (c.Shape == "file" || c.Shape == "flat") && !c.Opts.SkipUnpack && !c.Opts.Preserve {
+			// the same case into a working directory that already holds longer files under the same names
+			_, _, dstDir, uerr := run("u", time.Unix(1000000000, 0), false, true)
+			ugot := []Obj{}
+			if uerr == nil {
+				ugot = snapshot(filepath.Join(dstDir, name))
+			}
+			for i := range ugot {
+				if ugot[i].Mode == nil {
+					ugot[i].Mode = []int{}
+				}
+			}
+			emit(map[string]any{"e": "round", "kind": "used", "case": ci, "c": c, "isdir": isDir, "ok": uerr == nil, "msg": errStr(uerr), "src": src, "got": ugot})
+			os.RemoveAll(filepath.Join(root, fmt.Sprintf("c%d-u", ci)))
+		}
 		if isDir && !c.Opts.SkipUnpack && c.Shape == "flat" {
 			_, _, _, terr := run("t", time.Unix(1000000000, 0), true)
 			emit(map[string]any{"e": "round", "kind": "tamper", "case": ci, "c": c, "ok": terr == nil, "msg": errStr(terr)})
